@@ -479,10 +479,17 @@ func (p *printer) stmt(s *S) {
 		if !s.Ln {
 			fn = "print"
 		}
-		if s.Fmt || p.goMode {
+		if s.Fmt {
 			fn = "fmt.Println"
 			if !s.Ln {
 				fn = "fmt.Print"
+			}
+		}
+		if p.goMode {
+			// through package-level helpers: a local may shadow the name fmt
+			fn = "pr_"
+			if !s.Ln {
+				fn = "pr0_"
 			}
 		}
 		p.w(fn + "(" + p.args(s.Exprs, false) + ")")
@@ -778,7 +785,7 @@ func (prog *Prog) Source(goMode bool, choiceVectors [][]int) string {
 		pkg = "main"
 	}
 	if goMode {
-		p.w("package main\n\nimport \"fmt\"\n\nvar _ = fmt.Sprint\n\n")
+		p.w("package main\n\nimport \"fmt\"\n\nfunc pr_(a ...any) { fmt.Println(a...) }\n\nfunc pr0_(a ...any) { fmt.Print(a...) }\n\nvar _, _ = pr_, pr0_\n\n")
 	} else {
 		p.w("package " + pkg + "\n\n")
 		needFmt := false
@@ -843,7 +850,7 @@ func (prog *Prog) Source(goMode bool, choiceVectors [][]int) string {
 			}
 		}
 		p.w("}\n\n")
-		p.w("func runOnce(c []int32) {\n\tresetGlobals()\n\tdefer func() {\n\t\tif r := recover(); r != nil {\n\t\t\tfmt.Println(\"PANIC\")\n\t\t}\n\t}()\n")
+		p.w("func runOnce(c []int32) {\n\tresetGlobals()\n\tdefer func() {\n\t\tif r := recover(); r != nil {\n\t\t\tpr_(\"PANIC\")\n\t\t}\n\t}()\n")
 		if prog.NeedChoice {
 			p.w("\tRun(c)\n")
 		} else {
@@ -858,7 +865,7 @@ func (prog *Prog) Source(goMode bool, choiceVectors [][]int) string {
 			for _, c := range cv {
 				ss = append(ss, fmt.Sprint(c))
 			}
-			p.w("\trunOnce([]int32{" + strings.Join(ss, ", ") + "})\n\tfmt.Println(\"=====\")\n")
+			p.w("\trunOnce([]int32{" + strings.Join(ss, ", ") + "})\n\tpr_(\"=====\")\n")
 		}
 		p.w("}\n")
 	}
